@@ -20,7 +20,7 @@ class RandomBehaviour:
     schedule (needed for C04; harmless elsewhere)."""
 
     def __init__(self, seed, tb_next=(1, 2, 3), ev_next=(None, None, 1, 2), p_event=0.6, p_future=0.2,
-                 future=(0, 1, 2), sparse_pers=False, p_none=0.0):
+                 future=(0, 1, 2), sparse_pers=False, p_none=0.0, recur=0):
         self.seed = seed
         self.tb_next = tb_next
         self.ev_next = ev_next
@@ -28,7 +28,8 @@ class RandomBehaviour:
         self.p_future = p_future
         self.future = future
         self.sparse_pers = sparse_pers
-        self.p_none = p_none  # probability that a produced value is None (a legal value, not "no output")
+        self.recur = recur  # > 0: persistent values RECUR with this period (v, w, v, ...) instead of being unique per step
+        self.p_none = p_none  # probability that a produced value is None / falsy / a list / a dict (legal values, not "no output")
 
     def meta(self, sid, typ):
         return S.meta_for(typ)
@@ -53,7 +54,7 @@ class RandomBehaviour:
             d = {}
             for a in sorted(set(attrs)):
                 if S.is_pers(a):
-                    d[a] = tok(p.sid, p.k, a, eid)
+                    d[a] = tok(p.sid, p.k, a, eid) if not self.recur else tok(p.sid, f"r{p.k % self.recur}", a, eid)
                     any_pers = True
                 elif r.random() < self.p_event:
                     d[a] = tok(p.sid, p.k, a, eid)
@@ -61,7 +62,8 @@ class RandomBehaviour:
                 rn = self.rng(p.sid, "none", p.k)
                 for a in sorted(d):
                     if rn.random() < self.p_none:
-                        d[a] = None
+                        # None and other falsy or structured values are legal VALUES, not "no output"
+                        d[a] = rn.choice([None, None, 0, "", False, [d[a]], {"v": d[a]}])
             data[eid] = d
         if typ != "time-based" and not any_pers and r.random() < self.p_future:
             data["time"] = t + r.choice(self.future)
@@ -248,7 +250,12 @@ class AgentBehaviour(RandomBehaviour):
             n = 1 + (r.random() < 0.25)
             for j in range(n):
                 val = tok(p.sid, p.k, "sd" + (str(j) if j else ""))
-                rep.calls.append(("set_data", {f"{p.sid}.E0": {f"{a['target']}.{a.get('eid', 'E0')}": {a["attr"]: val}}}))
+                dests = {f"{a['target']}.{a.get('eid', 'E0')}": {a["attr"]: val}}
+                for e2 in a.get("also", []):
+                    # ONE set_data call that addresses several entities of the target (each gets its own value)
+                    if r.random() < 0.6:
+                        dests[f"{a['target']}.{e2}"] = {a["attr"]: tok(p.sid, p.k, "sd" + (str(j) if j else "") + e2)}
+                rep.calls.append(("set_data", {f"{p.sid}.E0": dests}))
         if a and a.get("get") and r.random() < 0.5:
             rep.calls.append(("get_data", {f"{a['target']}.E0": [a["get"]]}))
         for ill in self.illegal:
